@@ -84,12 +84,34 @@ structure Argv where
   inspect : Bool := false
   deriving DecidableEq, Repr
 
-structure World where
-  stdin : String
-  stdinTty : Bool
-  stdinErr : Option String           -- the class `sys.stdin.read()` raises (undecodable bytes: UnicodeDecodeError); none = readable
-  stdinOpen : Bool := true           -- `not sys.stdin.closed`
+/-- what `sys.stdin` is: an open stream, a CLOSED stream (`sys.stdin.close()`; every operation on it
+    raises ValueError), or ABSENT (`sys.stdin is None`: the process was started with fd 0 closed,
+    `glom … <&-`; every attribute access raises AttributeError) -/
+inductive StdinState where
+  | open | closed | absent
   deriving DecidableEq, Repr
+
+structure World where
+  stdin : String                     -- the text an open standard input holds
+  stdinTty : Bool                    -- `sys.stdin.isatty()` of an open standard input
+  stdinErr : Option String           -- the class reading an OPEN stdin raises (undecodable bytes: UnicodeDecodeError); none = readable
+  stdinState : StdinState := .open
+  deriving DecidableEq, Repr
+
+/-- `not sys.stdin.closed` where that expression has a value (open / closed) -/
+def World.stdinOpen (w : World) : Bool := w.stdinState == .open
+
+/-- `face.utils.isatty(sys.stdin)`: `stream.isatty()`, any exception (closed: ValueError, None:
+    AttributeError) is `False` -/
+def World.isatty (w : World) : Bool := w.stdinState == .open && w.stdinTty
+
+/-- the class `sys.stdin.read()` raises: of the decoder for an open stream, ValueError for a closed
+    one, AttributeError for `None.read`; `none` = it returns `w.stdin` -/
+def World.readErr (w : World) : Option String :=
+  match w.stdinState with
+  | .open => w.stdinErr
+  | .closed => some "ValueError"
+  | .absent => some "AttributeError"
 
 inductive Usage where
   | specBoth | specFileUnreadable | badSpecFormat
@@ -182,7 +204,7 @@ def getSpec (F : Facts) (X : Ext T S R) (a : Argv) : Except Outcome S :=
 
 /-- `_read_stdin()` / `sys.stdin.read()` -/
 def readStdin (F : Facts) (X : Ext T S R) (w : World) : Except Outcome (Option String) :=
-  match w.stdinErr with
+  match w.readErr with
   | none => .ok (some w.stdin)
   | some c => .error (readFail X F.stdinReadCatch .stdinUnreadable c)
 
@@ -195,7 +217,7 @@ def getTargetText (F : Facts) (X : Ext T S R) (a : Argv) (w : World) : Except Ou
     match X.readFile (a.targetFile.getD "") with
     | some t => .ok (some t)
     | none => .error (readFail X F.targetReadCatch .targetFileUnreadable (X.readErr (a.targetFile.getD "")))
-  else if !truthy targetText && !w.stdinTty then readStdin F X w
+  else if !truthy targetText && !w.isatty then readStdin F X w
   else .ok targetText
 
 /-- the classes the `except` around the loader names for this target format -/
@@ -225,9 +247,11 @@ def wrapSpec (X : Ext T S R) (stdinOpen : Bool) (spec : S) (debug inspect : Bool
   if debug || inspect then X.inspect spec inspect inspect (inspect && stdinOpen) (debug && stdinOpen) else spec
 
 /-- `glom_cli` -/
-def glomCli (X : Ext T S R) (stdinOpen : Bool) (target : T) (spec : S) (indent : Int)
+def glomCli (X : Ext T S R) (sk : StdinState) (target : T) (spec : S) (indent : Int)
     (debug inspect scalar : Bool) : Outcome :=
-  let spec := wrapSpec X stdinOpen spec debug inspect
+  -- `stdin_open = not sys.stdin.closed` is evaluated only under --debug / --inspect: `None.closed`
+  if (debug || inspect) && sk == .absent then .exc "AttributeError" else
+  let spec := wrapSpec X (sk == .open) spec debug inspect
   let pre := X.printed target spec        -- whatever the library call printed comes first
   match X.glom target spec with
   | .glomError cls msg => .exit 1 (pre ++ (cls ++ ": " ++ msg ++ "\n"))
@@ -243,7 +267,7 @@ def glomCli (X : Ext T S R) (stdinOpen : Bool) (target : T) (spec : S) (indent :
 def runWith (F : Facts) (X : Ext T S R) (a : Argv) (w : World) (spec : S) (target : Except Outcome T) : Outcome :=
   match target with
   | .error o => o
-  | .ok t => glomCli X w.stdinOpen t spec (a.indent.getD F.indentDefault) a.debug a.inspect a.scalar
+  | .ok t => glomCli X w.stdinState t spec (a.indent.getD F.indentDefault) a.debug a.inspect a.scalar
 
 /-- `main(argv)` after face parsed the flags: middleware, then the handler -/
 def cliMain (F : Facts) (X : Ext T S R) (a : Argv) (w : World) : Outcome :=
